@@ -302,3 +302,9 @@ package agent
 //@   callpre (*Connections).Delete: sameconn(ac, v.Laddr, v.Raddr)
 //@   modifies *
 //@   loop 1: invariant connsOK(conns)
+//
+// Accept never fails (the server's accept loop panics on an error; property C01).
+//@ func (*agentListener).Accept
+//@   check safety
+//@   ensures result1 == nil
+//@   modifies nothing
